@@ -79,6 +79,9 @@ AdPairs(k) == TriFamilies[k]
 SumSet == { << <<"so3", a>>, <<"r3", b>> >> : a \in {<<1,-2,2>>, <<0,0,1>>}, b \in {<<3,1,1>>} }
      \cup { << <<"se2", a>>, <<"so3", b>>, <<"r3", c>> >> : a \in {<<1,3,-2>>}, b \in {<<2,3,-1>>, <<0,0,0>>}, c \in {<<1,-2,0>>} }
      \cup { << <<"se3", a>>, <<"so2", b>> >> : a \in {<<1,0,0,0,2,-1>>}, b \in {<<-3>>} }
+     (* the same algebra twice with different parameters (factors are module-level singletons in the code) *)
+     \cup { << <<"so3", a>>, <<"so3", b>> >> : a \in {<<1,-2,2>>}, b \in {<<0,3,-1>>, <<2,0,1>>} }
+     \cup { << <<"se3", a>>, <<"r3", b>>, <<"se3", c>> >> : a \in {<<1,0,0,0,2,-1>>}, b \in {<<3,1,1>>}, c \in {<<0,-1,2,1,1,0>>} }
 adSum(parts) == BlockDiag([k \in 1..Len(parts) |-> adm(K0(parts[k][1]), parts[k][2])])
 
 InitA == \/ \E parts \in SumSet : tv = [op |-> "adsum", parts |-> parts, exp |-> adSum(parts)]
